@@ -643,7 +643,12 @@ func validateWriteRequest(req types.WriteRequest) error {
 func validateBatchWriteItemInput(input *dynamodb.BatchWriteItemInput) error {
 	count := 0
 
-	for _, reqs := range input.RequestItems {
+	for tableName, reqs := range input.RequestItems {
+		if len(reqs) == 0 {
+			// every table the batch names has at least one request
+			return &smithy.GenericAPIError{Code: "ValidationException", Message: "The batch write request list for a table cannot be null or empty: " + tableName}
+		}
+
 		for _, req := range reqs {
 			err := validateWriteRequest(req)
 			if err != nil {
